@@ -61,7 +61,7 @@ Proof.
     + destruct (tm_child t (b_id b)) as [g|]; [|eexists; reflexivity].
       destruct (tm_glob t g) as [gi|]; [|eexists; reflexivity].
       destruct (child_lookup (b_id b) (g_children gi)); [|eexists; reflexivity].
-      destruct (change_multi gi (b_id b) (b_typ b)) as [[gi' rm]|]; [|eexists; reflexivity].
+      destruct (change_multi cfg_fixed gi (b_id b) (b_typ b)) as [[gi' rm]|]; [|eexists; reflexivity].
       destruct rm; [|eexists; reflexivity].
       destruct (tm_remove_timeout_tl t (g_height gi) (TGid g) (tok_gid_ne_empty g) (m_ok _ _ _ _ _ M (g_height gi)))
         as [t1 [E _]]. rewrite E. eexists; reflexivity.
